@@ -102,12 +102,12 @@ Theorem C30_rows :
 Proof. exact set_row_style_layer. Qed.
 Print Assumptions C30_rows.
 
-(* COLUMNS: outside the C29 defect class the descriptor carries the index and the cells of the
-   column (no own style, row without custom_format) read it *)
+(* COLUMNS: the descriptor carries the index and the cells of the column (no own style, row
+   without custom_format) read it — any descriptor layout (the C29 exclusion is gone with the
+   repair of F23a) *)
 Theorem C30_columns :
   forall down up, (forall w, up (down w) = w) ->
   forall l c i l',
-  wf (l_cols l) -> defect_cop up (l_cols l) (SetStyle c i) = false ->
   layer_set_column_style down up l c i = Ok l' ->
   style_at (l_cols l') c = Some i /\
   forall r, cell_style r c (l_cells l') = None ->
